@@ -19,6 +19,9 @@ import ast
 import os
 import sys
 
+sys.path.insert(0, os.path.dirname(os.path.abspath(__file__)))
+import extract_dispatch  # noqa: E402  (call templates of the helpers, see that file)
+
 REPO = os.environ.get("CNFGEN_REPO", "/repo")
 HERE = os.path.dirname(os.path.dirname(os.path.abspath(__file__)))
 OUT = os.path.join(HERE, "lean", "CnfgenModel", "Generated", "Tables.lean")
@@ -180,6 +183,50 @@ def helpers():
                         "reads": args_reads(body), "sets": sorted(set(module_sets)),
                         "calls": calls_of(body, libnames)})
     res.sort(key=lambda h: (h["kind"], h["name"]))
+    return res
+
+
+def cli_specs():
+    """options + call templates of every helper class (same classes, same order as `helpers()`)"""
+    res = []
+    d = os.path.join(REPO, "cnfgen", "clihelpers")
+    for f in sorted(os.listdir(d)):
+        if not f.endswith(".py") or f == "__init__.py":
+            continue
+        tree = parse(os.path.join("cnfgen", "clihelpers", f))
+        libnames = {k: v for k, v in library_imports(tree).items()
+                    if v.startswith("cnfgen.families") or v.startswith("cnfgen.transformations")}
+        for node in tree.body:
+            if not isinstance(node, ast.ClassDef):
+                continue
+            name = None
+            for b in node.body:
+                if isinstance(b, ast.Assign) and len(b.targets) == 1 and isinstance(b.targets[0], ast.Name) \
+                        and b.targets[0].id == "name" and isinstance(b.value, ast.Constant):
+                    name = str(b.value.value)
+            methods = {b.name: b for b in node.body if isinstance(b, ast.FunctionDef)}
+            if name is None or "setup_command_line" not in methods or \
+                    not ("build_formula" in methods or "transform_cnf" in methods):
+                continue
+            kind = "formula" if "build_formula" in methods else "transformation"
+            body = methods.get("build_formula") or methods.get("transform_cnf")
+            setup = methods["setup_command_line"]
+            pname = setup.args.args[0].arg if setup.args.args else "parser"
+            res.append({"cls": node.name, "name": name, "kind": kind,
+                        "opts": [extract_dispatch.optspec(c, pname, extract_dispatch.option_groups(setup, pname))
+                                 for c in add_argument_calls(setup)],
+                        "templates": extract_dispatch.method_templates(body, libnames)})
+    res.sort(key=lambda h: (h["kind"], h["name"]))
+    return res
+
+
+def tool_templates():
+    res = []
+    for tool, rel in (("kthlist2pebbling", "cnfgen/clitools/kthlist2pebbling.py"),):
+        tree = parse(rel)
+        libnames = {k: v for k, v in library_imports(tree).items() if v.startswith("cnfgen.families")}
+        fn = fn_named(tree, "cli")
+        res.append((tool, extract_dispatch.tool_templates(fn, libnames) if fn is not None else []))
     return res
 
 
@@ -484,11 +531,31 @@ def emit():
             L.append("def {}{} : Nat := unsupportedConstant_{}\n".format(name, ps, name))
         else:
             L.append("def {}{} : Nat := {}\n".format(name, ps, expr))
+    L.append(extract_dispatch.emit(cli_specs(), tool_templates(),
+                                   extract_dispatch.graph_actions(parse("cnfgen/clitools/graph_args.py"))))
     L.append("end Cnfgen.Gen")
     return "\n".join(L) + "\n"
 
 
+def snapshot_documented():
+    """(deliberate, reviewed) lean/CnfgenModel/Cli/Documented.lean := the current tables of the handled
+    sub-commands; the list of handled sub-commands is asked to the built driver"""
+    import subprocess
+    drv = os.path.join(HERE, "lean", ".lake", "build", "bin", "driver")
+    p = subprocess.run([drv], input=b"dispatch_supported 0\ndispatch_supported 1\n", stdout=subprocess.PIPE, check=True)
+    lines = p.stdout.decode().split("\n")
+    names = {("formula", n) for n in lines[0].split()[1:]} | {("transformation", n) for n in lines[1].split()[1:]}
+    specs = [s for s in cli_specs() if (s["kind"], s["name"]) in names]
+    out = os.path.join(HERE, "lean", "CnfgenModel", "Cli", "Documented.lean")
+    with open(out, "w", encoding="utf-8") as fh:
+        fh.write(extract_dispatch.emit_snapshot(specs))
+    print("wrote", out, len(specs), "sub-commands")
+    return 0
+
+
 def main():
+    if "--snapshot-documented" in sys.argv:
+        return snapshot_documented()
     text = emit()
     os.makedirs(os.path.dirname(OUT), exist_ok=True)
     if os.path.exists(OUT) and open(OUT, encoding="utf-8").read() == text:
